@@ -262,6 +262,11 @@ def run(ctx):
     for k in range(120 if quick else 1200):
         xitems.append((rc.gen_dot_doc(rng), rng.choice(['root', 'all']), rng.below(1 << 30) + 1,
                        "native:%s:%s:%s" % (rng.choice([0.5, 1, 3]), rng.choice([0, 0.37]), rng.choice([0, 0.13]))))
+    # children with clip-path / mask definitions that carry their own transform or objectBoundingBox units, inside the
+    # group that receives isolation (seeded change C14-12)
+    for k in range(150 if quick else 1500):
+        xitems.append((rc.gen_clipped_child_doc(rng), rng.choice(['root', 'all', 'inner']), rng.below(1 << 30) + 1,
+                       "native:%s:%s:%s" % (rng.choice([0.5, 1, 1, 2]), rng.choice([0, 0.37]), rng.choice([0, 0.13]))))
     st = run_iso(ctx, binp, xitems, "e2e-C14 extents")
     stats['extents'] = st
     ctx.log("e2e-C14 extents: %s" % st)
